@@ -49,12 +49,28 @@ def _hash_sig(prog, fn, seen=None):
         fa = t.get("fnargs") or ""
         m = re.match(r"^<(.+) as std::hash::Hash>::hash::<(.+)>$", fa)
         if m:
-            out.add((m.group(1), m.group(2), ctor or "?"))
+            out.add((m.group(1), m.group(2), ctor or "?", _input_sig(fn, t["args"][0])))
             continue
         c = prog.local_callee(fn, t)
         if c is not None and c.file == fn.file and c.kind in ("fn", "method") and c.short.startswith("hash_key"):
-            out |= _hash_sig(prog, c, seen)
+            sig = _input_sig(fn, t["args"][0])
+            for (a, b2, c2, d2) in _hash_sig(prog, c, seen):
+                out.add((a, b2, c2, sig or d2))
     return out
+
+
+WHOLE = TRANSPARENT + (r"Deref>::deref$", r"str::as_bytes$", r"String::as_str$", r"AsRef<.*>>::as_ref$", r"String::as_bytes$", r"Borrow<.*>>::borrow$")
+
+
+def _input_sig(f, operand):
+    """'whole key' when the hashed value is the function's key parameter (seen through views such as as_bytes); otherwise a
+    description of the transformation applied first (sub-slice, helper call, ...): routing siblings must apply the same one."""
+    s = src_of_operand(f, operand, through_calls=WHOLE)
+    if s.kind == "path" and s.local == 1 and not [x for x in s.fields if x not in ("*",)]:
+        return "whole key"
+    if s.kind == "call":
+        return "transformed key (%s)" % callee(s.term).rsplit("::", 1)[-1]
+    return "transformed key (%s)" % s.path()
 
 
 def _r031(ck, prog, cfg):
@@ -266,12 +282,27 @@ def _r033_034(ck, prog, cfg):
         if v in listed:
             tg = [tg for vv, tg in t["cases"] if names[int(vv)] == v][0]
             arm = {x for x in ex.reachable_blocks() if ex.dominates(tg, x)} if ex.pred(tg) == [sw] else set()
+            iters = set()
             for x in arm:
                 tt = ex.term(x)
                 if tt["k"] == "call" and is_callee(tt, r"<impl \[.*ShardHandle\]>::iter$", r"Vec::<.*ShardHandle>::iter$", r"IntoIterator>::into_iter$"):
                     r = src_of_operand(ex, tt["args"][0], through_calls=TRANSPARENT + (r"Deref>::deref$",))
                     if r.kind == "path" and "shards" in r.fields:
-                        fan = True
+                        iters.add(x)
+            fan = bool(iters)
+            if fan:
+                # ... on every path through the arm: no shortcut that answers from a single shard
+                leak = lib2.path_avoiding(ex, tg, lambda x: x not in arm or ex.term(x)["k"] == "return", lambda x: x in iters, (), from_succ=False)
+                if leak is not None:
+                    lines = []
+                    for x in leak:
+                        ln = ex.term(x).get("ln")
+                        if ln and (not lines or lines[-1] != ln):
+                            lines.append(ln)
+                    ck.bad("R03.4", "keyspace-wide:%s:shortcut%s" % (v, _tag(cfg)),
+                           "Command::%s concerns the whole keyspace but a path through its arm answers without iterating over all shards "
+                           "(lines %s): with N>1 shards that reply covers one shard only" % (v, lines[:10]), ex.where(lines[0] if lines else None))
+                    continue
         ck.check(fan, "R03.4", "keyspace-wide:%s%s" % (v, _tag(cfg)),
                  "Command::%s concerns the whole keyspace but ShardedActorState::execute does not fan it out over all shards (it is "
                  "answered by shard 0 only)" % v, ex.where(t["ln"]), detail="arm iterates self.shards")
